@@ -183,6 +183,15 @@ def check(ctx):
                 ctx.ob("R-2", "invariant:%s:%s:%s" % (f.key, name.split("::")[-1], P.INVARIANT[key]), ok,
                        "site can never fire by %s: %s" % (P.INVARIANT[key], why), where=f.where(bi))
                 continue
+            if name in (P.UNWRAP_R, P.EXPECT_R):
+                # `label.to_vec().unwrap()` wherever it is written (a sort key built next to canonicalize): the same invariant
+                # as in Label::cmp_canonical, decided on the operand and on Label's encoder, not on the enclosing function
+                ok_l, why_l = _invariant(ctx, prog, cg, f, bi, t, "I-label-enc")
+                if ok_l:
+                    kinds["invariant"] += 1
+                    ctx.ob("R-2", "invariant:%s:%s:I-label-enc" % (f.key, name.split("::")[-1]), True,
+                           "site can never fire by I-label-enc: %s" % why_l, where=f.where(bi))
+                    continue
             pv = pv or Prov(f)
             subj = _panic_subject(prog, f, pv, bi, t, name)
             if subj is not None:
